@@ -20,6 +20,7 @@ import csv
 import datetime
 import io
 import os
+import re
 import zipfile
 from contextlib import closing
 from xml.etree import ElementTree
@@ -234,6 +235,19 @@ def _findall(element, xpath, namespaces):
     return result
 
 
+def _ods_count(text):
+    """
+    The integer number represented by attribute value ``text``. Unlike
+    :py:func:`int` this rejects numbers only Python can read, for example
+    ``1_0``.
+
+    :raises ValueError: if ``text`` is not an integer number
+    """
+    if not re.match(r"^\s*[+-]?[0-9]+\s*$", text):
+        raise ValueError("not an integer number: %r" % text)
+    return int(text)
+
+
 def _ods_table_rows(element):
     """
     The ``table:table-row`` elements of table ``element`` in document order
@@ -259,7 +273,7 @@ def _ods_text(element, location):
         if child.tag == _TEXT_S:
             blank_count_text = child.attrib.get(_TEXT_C, "1")
             try:
-                result += " " * int(blank_count_text)
+                result += " " * _ods_count(blank_count_text)
             except ValueError:
                 raise errors.DataFormatError(
                     "text:c is %s but must be an integer" % _compat.text_repr(blank_count_text), location
@@ -327,7 +341,7 @@ def ods_rows(source_ods_path, sheet=1):
         for table_cell in (row_child for row_child in table_row if row_child.tag in _TABLE_CELLS):
             repeated_text = table_cell.attrib.get(_NUMBER_COLUMNS_REPEATED, "1")
             try:
-                repeated_count = int(repeated_text)
+                repeated_count = _ods_count(repeated_text)
                 if repeated_count < 1:
                     raise errors.DataFormatError(
                         "table:number-columns-repeated is %s but must be at least 1" % _compat.text_repr(repeated_text),
